@@ -216,6 +216,7 @@ Section Pending.
       + apply NN. ll.
       + apply NN. ll.
       + apply NN. ll.
+      + (* KInjected *) exact C.
     - exact C.
     - destruct (_ || _); exact C.
     - (* FKids *) destruct (nth_error (n_children (nd p n)) i) as [c|]; [|apply NN; ll].
@@ -254,6 +255,7 @@ Section Pending.
     - (* FAlarmPost *) destruct (n_kind (nd p n)); try exact C. cbv zeta. cbn [outcome_ok]. apply I_register. apply NN.
       eapply le_trans; [|apply le_reset_tree]. eapply le_trans; [|apply le_unregister]. eapply le_trans; [apply le_mark_completed|].
       apply le_set_ns. cbn. exact id.
+    - (* FInjAfter *) apply NN. ll.
   Qed.
 
   Lemma I_init : I (init p). Proof. intros x []. Qed.
